@@ -284,6 +284,7 @@ class Verdict:
                 seen_names.add(nm)
                 order.append(v)
         order += [v for v in self.violations if v not in order]
+        order.sort(key=lambda v: v[1].get("name") == "(further failed obligations)")     # overflow buckets last (stable)
         budget = int(os.environ.get("VERIF_MAX_REPLAYS", "16"))
         t_replay = time.time()
         for n, v in enumerate(order):
@@ -293,6 +294,14 @@ class Verdict:
                 v[2], v[3] = path, "not-replayed"
                 continue
             status, text = native_replay(prop, path) if ob.get("model") is not None else ("no-input", "")
+            if ob.get("name") == "(further failed obligations)":
+                # the overflow bucket of a unit inherits the fate of that unit's stored failures: it is a violation only
+                # if one of them was confirmed natively; if they all turned out to be engine artefacts it is one too
+                sib = [w for w in self.violations if w is not v and w[0] == unit and w[1].get("name") != "(further failed obligations)"]
+                done = [w for w in sib if w[3] not in (None, "not-replayed")]
+                if done and not any(w[3] in ("violates", "no-input") for w in done):
+                    status = "holds" if all(w[3] == "holds" for w in done) else "error"
+                    text = "the stored failures of this unit did not reproduce natively"
             v[2], v[3] = path, status
             if status == "violates":
                 confirmed += 1
